@@ -56,6 +56,7 @@ var (
 	ErrCorruptedBlock    = errors.New("block checksum mismatch")
 	ErrCorruptedEntry    = errors.New("entry data corrupted")
 	ErrEmptyKey          = errors.New("entry key cannot be empty")
+	ErrKeyTooLong        = errors.New("entry key is longer than 65535 bytes")
 	ErrFileClosed        = errors.New("file is closed")
 	ErrCompactionRunning = errors.New("compaction is already running")
 )
@@ -289,6 +290,22 @@ func (e *Entry) Deserialize(buf []byte) (int, error) {
 	offset += dataLen
 
 	return offset, nil
+}
+
+// MaxKeyLength is the longest key the 16-bit key length field can hold.
+const MaxKeyLength = 1<<16 - 1
+
+// Validate reports whether the entry can be encoded faithfully: the key must be
+// non-empty and fit the 16-bit length field (otherwise the length would wrap and
+// the block could not be parsed back).
+func (e *Entry) Validate() error {
+	if e.Key == "" {
+		return ErrEmptyKey
+	}
+	if len(e.Key) > MaxKeyLength {
+		return ErrKeyTooLong
+	}
+	return nil
 }
 
 // Size returns the serialized size of the entry
